@@ -1,13 +1,18 @@
-// Prototype extractor: validates the mapping rules in Lungo/Expected/Skeleton.lean.
+// genSkeleton: the synchronisation skeleton (DESIGN appendix H) of the Engine / Session / Stream /
+// Semaphore functions, emitted as `Lungo.Gen.skeleton : List (String × Expected.Sk)` following the
+// mapping rules documented in lean/Lungo/Expected/Skeleton.lean (§0–7).  Compared in Lean with the
+// hand-written `Expected.skeleton` (lean/Lungo/Ties/Skeleton.lean).
+//
+// Harness instrumentation is invisible: `verifAt(...)` call statements and `defer verifAt(...)`
+// statements (build tag `verif`) are ignored explicitly.
 package main
 
 import (
 	"fmt"
 	"go/ast"
-	"go/parser"
 	"go/token"
 	"go/types"
-	"os"
+	"path/filepath"
 	"strconv"
 	"strings"
 )
@@ -82,7 +87,16 @@ func isTracked(c *ast.CallExpr) bool {
 }
 
 // callKind returns kind tag and rendered atom ("" if none)
+// isVerifHook: `verifAt(...)` — harness instrumentation, never part of the skeleton.
+func isVerifHook(c *ast.CallExpr) bool {
+	id, ok := c.Fun.(*ast.Ident)
+	return ok && id.Name == "verifAt"
+}
+
 func callKind(c *ast.CallExpr) (string, string) {
+	if isVerifHook(c) {
+		return "", ""
+	}
 	if s, ok := c.Fun.(*ast.SelectorExpr); ok {
 		p, def, _ := path(s.X)
 		if def {
@@ -151,7 +165,7 @@ func rhs(e ast.Expr) string {
 	return "(.other " + q(text(e)) + ")"
 }
 
-func isNil(e ast.Expr) bool { id, ok := strip(e).(*ast.Ident); return ok && id.Name == "nil" }
+func skIsNil(e ast.Expr) bool { id, ok := strip(e).(*ast.Ident); return ok && id.Name == "nil" }
 
 func cond(e ast.Expr) string {
 	e = strip(e)
@@ -168,7 +182,7 @@ func cond(e ast.Expr) string {
 			return "(.or " + cond(x.X) + " " + cond(x.Y) + ")"
 		case token.EQL, token.NEQ:
 			eq := x.Op == token.EQL
-			if isNil(x.Y) {
+			if skIsNil(x.Y) {
 				if id, ok := strip(x.X).(*ast.Ident); ok && id.Name == "err" {
 					if eq {
 						return ".errNil"
@@ -224,9 +238,9 @@ type node struct {
 	live bool
 }
 
-type tr struct{ results []*ast.FieldList }
+type skTr struct{ results []*ast.FieldList }
 
-func (t *tr) numResults() (int, bool) {
+func (t *skTr) numResults() (int, bool) {
 	r := t.results[len(t.results)-1]
 	if r == nil {
 		return 0, false
@@ -261,7 +275,7 @@ func anyLive(ns []node) bool {
 	return false
 }
 
-func (t *tr) stmts(ss []ast.Stmt) []node {
+func (t *skTr) stmts(ss []ast.Stmt) []node {
 	var out []node
 	for _, s := range ss {
 		out = append(out, t.stmt(s)...)
@@ -271,14 +285,14 @@ func (t *tr) stmts(ss []ast.Stmt) []node {
 
 func atom(s string) []node { return []node{{s: s, live: true}} }
 
-func (t *tr) simpleCall(c *ast.CallExpr) []node {
+func (t *skTr) simpleCall(c *ast.CallExpr) []node {
 	if _, a := callKind(c); a != "" {
 		return atom(a)
 	}
 	return nil
 }
 
-func (t *tr) ret(r *ast.ReturnStmt) []node {
+func (t *skTr) ret(r *ast.ReturnStmt) []node {
 	n, isErr := t.numResults()
 	var calls []string
 	for _, x := range r.Results {
@@ -328,7 +342,7 @@ func recvOf(e ast.Expr) (ast.Expr, bool) {
 	return nil, false
 }
 
-func (t *tr) stmt(s ast.Stmt) []node {
+func (t *skTr) stmt(s ast.Stmt) []node {
 	switch x := s.(type) {
 	case nil:
 		return nil
@@ -497,22 +511,24 @@ func (t *tr) stmt(s ast.Stmt) []node {
 	panic(fmt.Sprintf("unsupported statement %T", s))
 }
 
-func main() {
-	files := [][]string{
-		{"/repo/engine.go", "Engine.Catalog", "Engine.Begin", "Engine.Commit", "Engine.Abort", "Engine.Watch", "Engine.Close", "Engine.expire"},
-		{"/repo/session.go", "Session.startTransaction", "Session.CommitTransaction", "Session.AbortTransaction", "Session.EndSession", "Session.Transaction", "Session.WithTransaction"},
-		{"/repo/utils.go", "useTransaction"},
-		{"/repo/stream.go", "Stream.next", "Stream.Close"},
-		{"/repo/dbkit/semaphore.go", "Semaphore.Acquire", "Semaphore.Release"},
-	}
-	fmt.Println("import Lungo.Expected.Skeleton\nnamespace Lungo.Gen\nopen Lungo.Expected\nopen Lungo.Expected.Sk\n\ndef skeleton : List (String × Sk) := [")
-	first := true
-	for _, f := range files {
-		fset := token.NewFileSet()
-		af, err := parser.ParseFile(fset, f[0], nil, 0)
-		if err != nil {
-			panic(err)
-		}
+var skeletonFiles = [][]string{
+	{"engine.go", "Engine.Catalog", "Engine.Begin", "Engine.Commit", "Engine.Abort", "Engine.Watch", "Engine.Close", "Engine.expire"},
+	{"session.go", "Session.startTransaction", "Session.CommitTransaction", "Session.AbortTransaction", "Session.EndSession", "Session.Transaction", "Session.WithTransaction"},
+	{"utils.go", "useTransaction"},
+	{"stream.go", "Stream.next", "Stream.Close"},
+	{"dbkit/semaphore.go", "Semaphore.Acquire", "Semaphore.Release"},
+}
+
+// leanIdent turns "Engine.Begin" into "Engine_Begin" (per-function definitions for the ties).
+func leanIdent(key string) string { return strings.ReplaceAll(key, ".", "_") }
+
+func genSkeleton(repo string, o out) {
+	var b strings.Builder
+	b.WriteString("/- GENERATED by /verif/go/cmd/extract from /repo's working tree. Do not edit. -/\n")
+	b.WriteString("import Lungo.Expected.Skeleton\nnamespace Lungo.Gen\nopen Lungo.Expected\nopen Lungo.Expected.Sk\n\n")
+	var keys []string
+	for _, f := range skeletonFiles {
+		af := parse(filepath.Join(repo, f[0]))
 		decls := map[string]*ast.FuncDecl{}
 		for _, d := range af.Decls {
 			fd, ok := d.(*ast.FuncDecl)
@@ -525,24 +541,36 @@ func main() {
 				if st, ok := rt.(*ast.StarExpr); ok {
 					rt = st.X
 				}
-				key = rt.(*ast.Ident).Name + "." + key
+				if id, ok := rt.(*ast.Ident); ok {
+					key = id.Name + "." + key
+				}
 			}
 			decls[key] = fd
 		}
 		for _, key := range f[1:] {
 			fd := decls[key]
-			if fd == nil {
-				fmt.Fprintln(os.Stderr, "missing", key)
-				os.Exit(1)
+			if fd == nil || fd.Body == nil {
+				// an undefined identifier makes the generated file fail to compile, naming the function
+				fmt.Fprintf(&b, "def sk_%s : Sk := missing_function_%s\n\n", leanIdent(key), leanIdent(key))
+				keys = append(keys, key)
+				continue
 			}
-			t := &tr{results: []*ast.FieldList{fd.Type.Results}}
-			b := t.stmts(fd.Body.List)
-			if !first {
-				fmt.Println(",")
-			}
-			first = false
-			fmt.Printf("  (%s, .func %s)", q(key), list(b))
+			t := &skTr{results: []*ast.FieldList{fd.Type.Results}}
+			body := t.stmts(fd.Body.List)
+			fmt.Fprintf(&b, "def sk_%s : Sk := .func %s\n\n", leanIdent(key), list(body))
+			keys = append(keys, key)
 		}
 	}
-	fmt.Println("]\n\nexample : skeleton = Expected.skeleton := by decide\nexample : skEq skeleton Expected.skeleton = true := by decide\nend Lungo.Gen")
+	b.WriteString("def skeleton : List (String × Sk) := [\n")
+	for i, key := range keys {
+		sep := ","
+		if i == len(keys)-1 {
+			sep = ""
+		}
+		fmt.Fprintf(&b, "  (%s, sk_%s)%s\n", q(key), leanIdent(key), sep)
+	}
+	b.WriteString("]\n\nend Lungo.Gen\n")
+	o.raw("Skeleton", b.String())
 }
+
+func init() { extraGens = append(extraGens, genSkeleton) }
